@@ -109,6 +109,29 @@ type refReasm struct {
 
 func newRefReasm() *refReasm { return &refReasm{tr: map[uint16]*refTransfer{}} }
 
+// canon renders the reference state canonically (occupancy and ages relative to now).
+func (r *refReasm) canon(now int64) string {
+	var ids []int
+	for id := range r.tr {
+		ids = append(ids, int(id))
+	}
+	sort.Ints(ids)
+	var b strings.Builder
+	for _, id := range ids {
+		t := r.tr[uint16(id)]
+		fmt.Fprintf(&b, "%04x:", id)
+		for i := uint16(1); i <= t.total; i++ {
+			if _, ok := t.parts[i]; ok {
+				b.WriteByte('#')
+			} else {
+				b.WriteByte('.')
+			}
+		}
+		fmt.Fprintf(&b, "@%d/%d;", now-t.create, now-t.update)
+	}
+	return b.String()
+}
+
 // read processes the frames of one read at virtual time now (ms).
 func (r *refReasm) read(frames []*ref.Frame, now int64) (complete []refDeliver, reissue []refReissue) {
 	// a transfer still incomplete 60 s after it began is discarded and never delivered
@@ -370,7 +393,8 @@ func rEval(c rCase) (sig, diag string, nreads int, key string, interesting bool)
 		end += e.Advance
 	}
 	vs.SetFreeClock(end * 1e6)
-	key = ps.State(vtime.Now())
+	// the key joins the real object's state with the reference model's: two histories are merged only when both agree
+	key = ps.State(vtime.Now()) + "|ref:" + rm.canon(end)
 	return "", "", len(reads), key, interesting
 }
 
@@ -503,6 +527,7 @@ func rSearch(ctx *vc.Ctx, rep *vc.Report, prop string, alpha []rEvent, depth int
 	type node struct{ hist []int }
 	frontier := []node{{}}
 	seen := map[string]bool{}
+	states := map[uint64]struct{}{} // distinct canonical states of the real reassembler reached by evaluations this worker owns
 	var idx int64
 	run := func(h []int, mode string, conn bool) (string, bool) {
 		idx++
@@ -517,6 +542,9 @@ func rSearch(ctx *vc.Ctx, rep *vc.Report, prop string, alpha []rEvent, depth int
 		rep.Evaluations++
 		rep.Transitions += int64(reads)
 		rep.TracesValidated++
+		if key != "" && len(states) < 3000000 {
+			states[hashBytes([]byte(key))] = struct{}{}
+		}
 		if interesting {
 			rep.Nontrivial++
 		}
@@ -568,9 +596,14 @@ func rSearch(ctx *vc.Ctx, rep *vc.Report, prop string, alpha []rEvent, depth int
 					run(h, "per-frame", true)
 					run(h, "coalesced", true)
 				}
+				if key == "" {
+					// outside the property's precondition (or already reported): every extension is too
+					rep.Count("histories_outside_precondition", 1)
+					continue
+				}
 				if dedup {
 					k := fmt.Sprintf("%s|%d", key, timeOf(alpha, h))
-					if key != "" && seen[k] {
+					if seen[k] {
 						rep.Count("states_merged", 1)
 						continue
 					}
@@ -580,14 +613,20 @@ func rSearch(ctx *vc.Ctx, rep *vc.Report, prop string, alpha []rEvent, depth int
 			}
 		}
 		frontier = next
-		rep.Count(fmt.Sprintf("frontier_depth_%d", d), int64(len(frontier)))
-	}
-	if ctx.Worker == 0 {
-		rep.States += int64(len(seen))
-		if !dedup {
-			rep.States += idx / 2
+		if dedup {
+			rep.Count(fmt.Sprintf("fixpoint_frontier_depth_%d", d), int64(len(frontier)))
+			if len(frontier) == 0 {
+				rep.Count("fixpoint_closed_at_depth", int64(d))
+				break
+			}
+		} else {
+			rep.Count(fmt.Sprintf("frontier_depth_%d", d), int64(len(frontier)))
 		}
 	}
+	if dedup {
+		rep.Count("fixpoint_distinct_states", int64(len(seen)))
+	}
+	rep.States += int64(len(states))
 }
 
 func timeOf(alpha []rEvent, h []int) int64 {
@@ -613,8 +652,8 @@ func rReplay(raw json.RawMessage) string {
 func init() {
 	vc.Register(&vc.Check{
 		ID: "C05", Level: "model_checking",
-		Rule: "breadth-first search over ALL histories up to depth 5 (thorough 6) of the events {A1,A2,A3 (0x0801, N=3, unequal bodies, one escape-dense), B1,B2 (0x0704, N=2), heartbeat, location, A#0, A#4 (impossible numbers), C#2 (no transfer of that ID), D1/1 (N=1)} on the REAL reassembler, each history fed one frame per read, all frames coalesced, every frame split in the middle, two frames per read, under EVERY 1-cut for depth <= 3, and through the real connection for depth <= 3 (handlers must see complete messages only, one reply each); plus N=255 transfers in forward, reverse and interleaved order. " +
-			"Histories that repeat packet 1 of an active transfer leave the property's precondition and are skipped. states = canonical reassembler states (slot occupancy, buffered bytes), transitions = reads. Non-trivial = history that completes at least one transfer",
+		Rule: "breadth-first search over ALL histories up to depth 5 (thorough 6) of the events {A1,A2,A3 (0x0801, N=3, unequal bodies, one escape-dense), B1,B2 (0x0704, N=2), heartbeat, location, A#0, A#4 (impossible numbers), C#2 (no transfer of that ID), D1/1 (N=1)} on the REAL reassembler, each history fed one frame per read, all frames coalesced, every frame split in the middle, two frames per read, under EVERY 1-cut for depth <= 3, and through the real connection for depth <= 3 (handlers must see complete messages only, one reply each); then the same search with deduplication on (real state, reference state) run to its FIXPOINT (every reachable reassembler state over this alphabet at any depth, one frame per read and coalesced); plus N=255 transfers in forward, reverse and interleaved order. " +
+			"Histories that repeat packet 1 of an active transfer leave the property's precondition and are skipped. states = distinct canonical reassembler states (slot occupancy, buffered bytes) per worker, summed; transitions = reads. Non-trivial = history that completes at least one transfer",
 		Assumptions: []string{"reference reassembler in checks/c05.go", "accessor VerifParser (tag verif) for the extractor-level search; connection-level replays use no accessor"},
 		Run: func(ctx *vc.Ctx, rep *vc.Report) {
 			depth := 5
@@ -622,6 +661,11 @@ func init() {
 				depth = 6
 			}
 			rSearch(ctx, rep, "C05", c05Alphabet(), depth, false, 3, 3)
+			// fixpoint: breadth-first search with state deduplication until no new (real state, reference state) pair
+			// appears - every reachable state of the reassembler over this alphabet, at any depth
+			before := rep.Counters["states_merged"]
+			rSearch(ctx, rep, "C05", c05Alphabet(), 64, true, 0, 0)
+			rep.Count("fixpoint_reached_states_merged", rep.Counters["states_merged"]-before)
 			c05Big(ctx, rep)
 		},
 		Drivers: map[string]func(json.RawMessage) string{"reasm": rReplay},
@@ -629,7 +673,7 @@ func init() {
 	vc.Register(&vc.Check{
 		ID: "C14", Level: "model_checking",
 		Rule: "breadth-first search with state deduplication over histories up to depth 6 (thorough 8) of {X1,X2,X3 (N=3), Y1,Y2 (N=2), heartbeat, +4999ms, +5001ms, +30s, +55s, +60001ms} on the REAL reassembler under a virtual clock, one frame per read and frames of one instant coalesced; plus, for N=2..6, EVERY non-empty set of missing packets x idle time {4999,5001,30000,55000,60001} ms x {no, partial, full} resupply x second idle time, and N=255 families (each single packet missing, evens, odds, all but the first, all but first and last); representative histories through the real connection (0x8003 on the socket once, with the next platform serial). " +
-			"states = canonical reassembler states (slot occupancy and ages relative to now), transitions = reads. Non-trivial = history that triggers a re-request, an expiry or a completion",
+			"states = distinct canonical reassembler states (slot occupancy and ages relative to now) per worker, summed; transitions = reads. Non-trivial = history that triggers a re-request, an expiry or a completion",
 		Assumptions: []string{"idle/age exactly equal to 5 s / 60 s is not exercised (the property does not say which side the boundary belongs to)", "the clock is virtual (vtime); no wall clock"},
 		Run: func(ctx *vc.Ctx, rep *vc.Report) {
 			depth := 6
